@@ -21,5 +21,19 @@ cat $jobs | xargs -P $par -L 1 bash -c '
   echo "| $id | $prop | $c | $out |" >> '$res'
   echo "$id $c $out"
 '
-{ echo "| seed | property | check | result |"; echo "|---|---|---|---|"; sort $res $res.skip; } > seeded/KILL_MATRIX.md
+python3 - $res $res.skip > seeded/KILL_MATRIX.md <<'PY'
+import sys, collections
+rows = [l.strip().strip("|").split("|") for f in sys.argv[1:] for l in open(f) if l.strip()]
+per = collections.OrderedDict()
+for seed, prop, chk, out in sorted([[c.strip() for c in r] for r in rows]):
+    per.setdefault(seed, {"prop": prop, "det": [], "miss": [], "other": []})
+    (per[seed]["det"] if out.startswith("detected") else per[seed]["miss"] if out == "MISSED" else per[seed]["other"]).append((chk, out))
+ndet = sum(1 for v in per.values() if v["det"])
+nneu = sum(1 for v in per.values() if any("neutralised" in o for _, o in v["other"]))
+nmiss = sum(1 for v in per.values() if not v["det"] and v["miss"])
+print(f"Seeded changes: {len(per)}; detected by at least one check: {ndet}; neutralised by a later repair: {nneu}; not detected: {nmiss} (each explained in DESIGN.md section 8).\n")
+print("| seed | property | detected by | not detected by | note |\n|---|---|---|---|---|")
+for seed, v in per.items():
+    print(f"| {seed} | {v['prop']} | {', '.join(c + ' (' + o.split('(')[1].split(' ')[0] + ')' for c, o in v['det'])} | {', '.join(c for c, _ in v['miss'])} | {'; '.join(o for _, o in v['other'])} |")
+PY
 rm -f $jobs $res $res.skip
